@@ -166,6 +166,24 @@ func main() {
 	for _, s := range gen.OCIShapes() {
 		shapes[s.Name] = s.Make
 	}
+	// an initial OCI spec that already contains, for every resolvable device and its file's
+	// spec-level edits, an entry of the same identity (variable name, device path, mount
+	// destination, hook path, gid, RDT class): whatever replace/de-duplicate logic runs on
+	// injection would show on it if it ran before the resolution verdict
+	shapes["colliding-with-edits"] = func() *oci.Spec {
+		s := &oci.Spec{Version: "1.1.0", Process: &oci.Process{Env: []string{"PATH=/bin", "COLLIDE=from-runtime"}, User: oci.User{UID: 1000, GID: 1000}},
+			Hooks: &oci.Hooks{}, Linux: &oci.Linux{Resources: &oci.LinuxResources{}, IntelRdt: &oci.LinuxIntelRdt{ClosID: "clos-f1.json-a"}}}
+		for i, tag := range []string{"f1.json-a", "f1.json-SPEC", "f2.json-c", "f2.json-SPEC", "f0.json-d", "f0.json-SPEC"} {
+			s.Process.Env = append(s.Process.Env, "E_"+tag+"=from-runtime")
+			s.Linux.Devices = append(s.Linux.Devices, oci.LinuxDevice{Path: "/dev/" + tag, Type: "b", Major: 7, Minor: int64(i)})
+			maj, min := int64(7), int64(i)
+			s.Linux.Resources.Devices = append(s.Linux.Resources.Devices, oci.LinuxDeviceCgroup{Allow: true, Type: "b", Major: &maj, Minor: &min, Access: "r"})
+			s.Mounts = append(s.Mounts, oci.Mount{Destination: "/mnt/" + tag, Source: "/from-runtime"})
+			s.Hooks.Prestart = append(s.Hooks.Prestart, oci.Hook{Path: "/hook/" + tag, Args: []string{"from-runtime"}})
+			s.Process.User.AdditionalGids = append(s.Process.User.AdditionalGids, uint32(1000+i), uint32(1050+i))
+		}
+		return s
+	}
 	mk := func(ociName string, idx []int) Case {
 		c := Case{OCI: ociName, idx: append([]int{}, idx...)}
 		for _, i := range idx {
@@ -188,11 +206,11 @@ func main() {
 		os.RemoveAll(root)
 		hx.ReplayExit("C04", res)
 	}
-	maxLen := 3
-	ociNames := []string{"empty", "populated", "nil"}
+	maxLen := 4
+	ociNames := []string{"empty", "populated", "colliding-with-edits", "nil"}
 	if r.Thorough() {
-		maxLen = 4
-		ociNames = []string{"empty", "version-only", "process-nonroot", "process-root-linux-empty", "linux-resources-no-devices", "populated", "nil"}
+		maxLen = 5
+		ociNames = []string{"empty", "version-only", "process-nonroot", "process-root-linux-empty", "linux-resources-no-devices", "populated", "colliding-with-edits", "nil"}
 	}
 	var cases []Case
 	var rec func(cur []int)
@@ -209,7 +227,7 @@ func main() {
 	}
 	rec(nil)
 	r.Rule = fmt.Sprintf("one cache (two directories; resolvable a,b,c,d; x defined twice at the top priority; y defined once low and twice high) x every request list of length 0..%d with repetitions over %d request kinds "+
-		"(3 resolvable, unknown device, unknown vendor, unqualified, missing name, empty string, conflict-removed, conflict-over-shadowed) x %d initial OCI specs incl. nil. "+
+		"(3 resolvable, unknown device, unknown vendor, unqualified, missing name, empty string, conflict-removed, conflict-over-shadowed) x %d initial OCI specs incl. nil and one that already holds an entry of the same identity as every edit of the resolvable devices. "+
 		"Oracle: error; returned list == request filtered to unresolvable names (order, multiplicity); OCI spec deep-equal and JSON-identical to its pre-call copy. Distinct by construction; non-trivial = at least one miss or nil spec",
 		maxLen, len(tokens), len(ociNames))
 	r.Assumptions = []string{"every resolvable device's edits could be applied (type and major specified), so a modification would be visible", "which names resolve in this population is cross-checked against the cache at start (exit 2 on disagreement; that rule is C01's subject)"}
